@@ -384,12 +384,12 @@ func RunC10(c *core.Ctx) {
 		stress = append(stress, Stress(rate, 3, 120, rng, fmt.Sprintf("stress-rate%d-%d", rate, i)))
 	}
 	// the same through a whole broker: concurrent publishers fan out to subscribers behind real listener.Conns
-	bruns := 6
+	bruns := 8
 	if !c.Quick() {
 		bruns = 60
 	}
 	for i := 0; i < bruns; i++ {
-		rate := []int{1, 60, 1000}[i%3]
+		rate := []int{1, 60, 1000, -1}[i%4] // -1: the websocket transport
 		ts, err := BrokerStress(rate, 6, 3, 150, rng, fmt.Sprintf("broker-rate%d-%d", rate, i))
 		if err != nil {
 			core.Fatalf("broker stress: %v", err)
@@ -403,6 +403,6 @@ func RunC10(c *core.Ctx) {
 	c.Set("distinct_nontrivial", nt)
 	c.Set("rule", "TLC-simulated interleavings of 2 writers x 2-3 packets and the timer flush, over every limiter outcome, at the granularity of the verif.At gates in Conn.Write / Conn.Flush (after Limit(), after Len(), after enqueue, before the direct write, after the flush lock, after the socket write, after Reset); each schedule is forced onto a real listener.Conn whose socket is a recording fake; packet sizes 3..70000 bytes; non-trivial = a schedule containing both a flush and a direct write")
 	c.Assume = append(c.Assume, "one Write call on the underlying socket is atomic w.r.t. other Write calls (true for net.TCPConn; the fake socket implements exactly that)",
-		"the WebSocket transport is covered by the sequential adapters check (C17); here: the concurrent write queue in isolation (forced schedules, stress) and behind a whole broker with concurrent publishers (stress)")
+		"the WebSocket transport: sequentially in C17, concurrently in the whole-broker stage over a fake frame sink that allows one writer at a time (as gorilla does); here: the concurrent write queue in isolation (forced schedules, stress) and behind a whole broker with concurrent publishers (stress)")
 	c.Finish()
 }
